@@ -26,7 +26,7 @@ from gnpy.core.utils import dbm2watt, automatic_nch
 
 from . import gn, taps, worlds
 from .core import SessionBase, Violation, HarnessError, session_started, session_closed, jdigest
-from .taps import TAP
+from .taps import TAP, InjectedFault
 
 REL = 1e-9
 
@@ -334,7 +334,23 @@ class E1Session(SessionBase):
             self.st.probes['multiband_mux_demux_executed'] += 1
         return None
 
-    def do_propagate(self, src, dst, spec, copy, reuse=False):
+    def _check_reported(self, trx, when=''):
+        """the figures a transceiver *reports* obey 1/GSNR = 1/OSNR_ASE + 1/SNR_NLI"""
+        if getattr(trx, 'snr', None) is None:
+            return
+        shapes = {np.shape(np.array(getattr(trx, a), dtype=float)) for a in ('snr', 'osnr_ase', 'osnr_nli')}
+        if len(shapes) != 1:
+            raise Violation('C01', 'reported-figures-have-different-channel-counts' + when, f'{trx.uid}: {sorted(shapes)}')
+        with np.errstate(divide='ignore', invalid='ignore', over='ignore'):
+            l_ = 10 ** (-np.array(trx.snr, dtype=float) / 10)
+            r_ = 10 ** (-np.array(trx.osnr_ase, dtype=float) / 10) + 10 ** (-np.array(trx.osnr_nli, dtype=float) / 10)
+        if not np.allclose(l_, r_, rtol=1e-6, atol=0):
+            raise Violation('C01', 'reported-figures-break-gsnr-identity' + when,
+                            f'{trx.uid}: GSNR {np.round(np.array(trx.snr, dtype=float)[:2], 3)} OSNR_ASE '
+                            f'{np.round(np.array(trx.osnr_ase, dtype=float)[:2], 3)} SNR_NLI '
+                            f'{np.round(np.array(trx.osnr_nli, dtype=float)[:2], 3)}')
+
+    def do_propagate(self, src, dst, spec, copy, reuse=False, fault_at=None):
         if self.discarded:
             return {'kind': 'discarded'}
         key = jdigest([src, dst, spec])
@@ -383,31 +399,32 @@ class E1Session(SessionBase):
         self.seen_types = set()
         self.amp_seen = self.fiber_seen = False
         self.out_of_domain = False
-        TAP.arm(observer=self._observer)
+        TAP.arm(observer=self._observer, fault_at=fault_at)
         try:
             propagate(path, req, self.equipment)
+        except InjectedFault:
+            # a propagation that dies inside an element: whatever the transceivers at both ends report afterwards
+            # (figures of an earlier propagation) still obeys the identity
+            self.st.faults['propagation_aborted_inside_an_element'] += 1
+            ends_had = [t.uid for t in (path[0], path[-1]) if getattr(t, 'snr', None) is not None]
+            if ends_had:
+                self.st.probes['aborted_propagation_at_a_transceiver_holding_figures'] += 1
+            if not self.out_of_domain:
+                for trx in (path[0], path[-1]):
+                    self._check_reported(trx, ':after-aborted-propagation')
+            return {'kind': 'aborted'}
         except (ValueError, SpectrumError, ServiceError, IndexError, TypeError, KeyError) as e:
             self.st.notes[f'propagation_refused:{type(e).__name__}'] += 1
             return {'kind': f'refused:{type(e).__name__}'}
         finally:
             TAP.reset()
+        if fault_at is not None:
+            self.st.notes['armed_fault_did_not_fire'] += 1
         if self.out_of_domain:
             return {'kind': 'left-the-domain-of-the-property'}
         # the figures every transceiver on the path *reports* (source included) obey the identity
         for trx in (path[0], path[-1]):
-            if getattr(trx, 'snr', None) is None:
-                continue
-            shapes = {np.shape(np.array(getattr(trx, a), dtype=float)) for a in ('snr', 'osnr_ase', 'osnr_nli')}
-            if len(shapes) != 1:
-                raise Violation('C01', 'reported-figures-have-different-channel-counts', f'{trx.uid}: {sorted(shapes)}')
-            with np.errstate(divide='ignore', invalid='ignore', over='ignore'):
-                l_ = 10 ** (-np.array(trx.snr, dtype=float) / 10)
-                r_ = 10 ** (-np.array(trx.osnr_ase, dtype=float) / 10) + 10 ** (-np.array(trx.osnr_nli, dtype=float) / 10)
-            if not np.allclose(l_, r_, rtol=1e-6, atol=0):
-                raise Violation('C01', 'reported-figures-break-gsnr-identity',
-                                f'{trx.uid}: GSNR {np.round(np.array(trx.snr, dtype=float)[:2], 3)} OSNR_ASE '
-                                f'{np.round(np.array(trx.osnr_ase, dtype=float)[:2], 3)} SNR_NLI '
-                                f'{np.round(np.array(trx.osnr_nli, dtype=float)[:2], 3)}')
+            self._check_reported(trx)
         rx = path[-1]
         with np.errstate(divide='ignore', invalid='ignore'):
             lhs = 10 ** (-np.array(rx.raw_snr, dtype=float) / 10)
@@ -607,6 +624,15 @@ def make_machine(prop, tier, cfg):
         def propagate(self, src, dst, copy, power, n, carriers):
             self.sess.apply('propagate', {'src': src, 'dst': dst, 'copy': copy,
                                           'spec': {'power_dbm': power, 'n': n, 'carriers': [list(c) for c in carriers]}})
+
+        @precondition(lambda self: self.layer == 2 and self.sess is not None and self.sess.oplog
+                      and self.sess.oplog[-1][0] in ('propagate', 'propagate_auto'))
+        @rule(src=st.integers(0, 5), fault_at=st.integers(1, 12), power=st.sampled_from([0.0, 3.0, -3.0]))
+        def propagate_back_and_abort(self, src, fault_at, power):
+            # the receiver of the last propagation becomes the source of one that dies inside an element
+            last = self.sess.oplog[-1][1]
+            self.sess.apply('propagate', {'src': last['dst'], 'dst': last['src'] if src == 0 else src, 'copy': False,
+                                          'spec': {'power_dbm': power, 'n': 1, 'carriers': []}, 'fault_at': fault_at})
 
         @precondition(lambda self: self.layer == 2)
         @rule(src=st.integers(0, 5), dst=st.integers(0, 5), trx=st.integers(0, 5),
